@@ -42,12 +42,14 @@ class RunInfo:
     def __post_init__(self) -> None:
         if self.run_folder is None:
             return
-        self.dump()
         for input_name, value in self.inputs.items():
             input_path = _input_path(input_name, self.run_folder)
             dump(value, input_path)
         defaults_path = _defaults_path(self.run_folder)
         dump(self.defaults, defaults_path)
+        # Written last: `run_info.json` refers to the input and default files,
+        # so its presence implies that they are complete.
+        self.dump()
 
     @classmethod
     def create(
